@@ -41,6 +41,8 @@ ASSUMPTIONS = ["H_mac_unforgeable (premise of C04_cookie_sound / C04_admission, 
                "START-UP restored sessions (installInMemoryState, op X) carry pairwise distinct non-zero ids that are not "
                "in use (own checkpoint, written from a table for which the distinctness theorem held); RUN-TIME HA "
                "restores (restoreFromHASync, op H) carry arbitrary ids and are fully modelled",
+               "which free session-id a PADR gets and whether a cookie for a non-Ethernet MAC is accepted are left to the "
+               "implementation: its answer is checked for admissibility, not compared with HEAD's policy",
                "packet handlers are atomic except handlePADR, which is split at the one point where it releases all locks "
                "(between allocateSessionID and addToIndexes); every interleaving of those halves is covered"]
 
